@@ -8,10 +8,10 @@ for p in selftest/mutants/*${1}*.patch; do
   id=$(basename "$p" | cut -d_ -f1)
   if ! git -C /repo apply --check "$PWD/$p" 2>/dev/null; then echo "SKIP $p (does not apply)"; continue; fi
   git -C /repo apply "$PWD/$p"
-  if ! (cd /repo && go build ./... >/dev/null 2>&1); then echo "BAD-MUTANT $p (does not build)"; git -C /repo checkout -- .; fail=1; continue; fi
-  if [ -z "$SKIP_TESTS" ] && ! (cd /repo && go test -vet=off -count=1 ./... >/dev/null 2>&1); then echo "BAD-MUTANT $p (fails the repository tests)"; git -C /repo checkout -- .; fail=1; continue; fi
+  if ! (cd /repo && go build ./... >/dev/null 2>&1); then echo "BAD-MUTANT $p (does not build)"; git -C /repo apply -R "$PWD/$p"; fail=1; continue; fi
+  if [ -z "$SKIP_TESTS" ] && ! (cd /repo && go test -vet=off -count=1 ./... >/dev/null 2>&1); then echo "BAD-MUTANT $p (fails the repository tests)"; git -C /repo apply -R "$PWD/$p"; fail=1; continue; fi
   out=$(VERIF_ROOT=/tmp/verif-selftest-root ./selftest/check_in_scratch.sh "$id" 2>&1)
-  git -C /repo checkout -- .
+  git -C /repo apply -R "$PWD/$p"
   if echo "$out" | grep -q "^VIOLATION property=$id"; then
     echo "CAUGHT $p: $(echo "$out" | grep '^VIOLATION' | head -2 | sed 's/replay=[^ ]* //' | tr '\n' ';' | cut -c1-260)"
   else
